@@ -45,7 +45,7 @@ def _tagpair(tape):
 
 def gen_history(tape, max_tests=5, runs=True, tags=True, times=True, extras=True, skip_pair=False,
                 modes=("details", "exc_info"), test_kinds=("testcase", "placeholder", "errorholder"),
-                second_run=True, binary_details=True):
+                second_run=True, binary_details=True, rich_details=False):
     """A well-formed history of TestResult calls as data."""
     h = []
     counter = [0]
@@ -95,7 +95,22 @@ def gen_history(tape, max_tests=5, runs=True, tags=True, times=True, extras=True
                 payload["reason"] = "why-%d" % mark()
             if method in ("addSuccess", "addUnexpectedSuccess") and mode == "exc_info":
                 mode = "plain" if tape.chance("program", 1, 2, "plain") else "details"
-            if mode == "details":
+            if mode == "details" and rich_details:
+                det = {}
+                for j in range(tape.draw("program", 5, "n-details")):
+                    name = tape.choice("program", ("log", "traceback", "dét", "blob", "x y", "reason-ish"), "detail-name")
+                    cti = tape.draw("program", len(CTYPES), "content-type")
+                    nch = tape.draw("payload", 5, "n-chunks")
+                    base = ("D%d-é☃" % mark()).encode("utf8") if CTYPES[cti][0] == "text" else b"\xff\x00D%d" % mark()
+                    chunks = []
+                    for c in range(nch):
+                        if tape.chance("payload", 1, 4, "empty-chunk"):
+                            chunks.append(b"")
+                        else:
+                            chunks.append(base + b"#%d" % c)
+                    det[name] = ["text" if CTYPES[cti][0] == "text" else "bin", chunks, cti]
+                payload["details"] = det
+            elif mode == "details":
                 nd = tape.draw("program", 3, "n-details")
                 det = {}
                 for j in range(nd):
@@ -133,10 +148,30 @@ TEXT_CT = ContentType("text", "plain", {"charset": "utf8"})
 BIN_CT = ContentType("application", "octet-stream")
 
 
+# content types from the safe MIME domain: lower-case tokens, parameter values without quote,
+# backslash, CR/LF; charset without comma
+CTYPES = (
+    ("text", "plain", {"charset": "utf8"}),
+    ("text", "plain", {}),
+    ("text", "x-traceback", {"language": "python", "charset": "utf8"}),
+    ("application", "octet-stream", {}),
+    ("application", "json", {"k": "v1"}),
+    ("image", "png", {"a": "1", "b": "two words"}),
+    ("text", "html", {"charset": "utf8", "x": "y"}),
+)
+
+
+def content_type_of(spec):
+    if len(spec) > 2:
+        t, st, params = CTYPES[spec[2]]
+        return ContentType(t, st, dict(params))
+    return TEXT_CT if spec[0] == "text" else BIN_CT
+
+
 def build_details(det):
     out = {}
-    for name, (shape, chunks) in det.items():
-        out[name] = _content.Content(TEXT_CT if shape == "text" else BIN_CT, lambda c=chunks: list(c))
+    for name, spec in det.items():
+        out[name] = _content.Content(content_type_of(spec), lambda c=spec[1]: list(c))
     return out
 
 
